@@ -63,6 +63,9 @@ FUNCS = [
     ("rtrlib/lib/ip.c", "lrtr_ip_addr_equal", {}),
     ("rtrlib/pfx/trie/trie.c", "is_left_child", {}),
     ("rtrlib/spki/hashtable/ht-spkitable.c", "tommy_inthash_u32", {}),
+    ("rtrlib/spki/hashtable/ht-spkitable.c", "key_entry_cmp", {"as": {"arg": "struct key_entry", "obj": "struct key_entry"}}),
+    ("rtrlib/spki/hashtable/ht-spkitable.c", "key_entry_to_spki_record", {}),
+    ("rtrlib/spki/hashtable/ht-spkitable.c", "spki_record_to_key_entry", {}),
     ("rtrlib/lib/convert_byte_order.c", "lrtr_convert_short", {}),
     ("rtrlib/lib/convert_byte_order.c", "lrtr_convert_long", {}),
     ("rtrlib/rtr/rtr.c", "rtr_get_interval_mode", {}),
@@ -76,6 +79,10 @@ FUNCS = [
     ("rtrlib/rtr/packets.c", "rtr_pdu_header_to_host_byte_order", {"mem": ["pdu"], "writes": True}),
     ("rtrlib/rtr/packets.c", "rtr_pdu_header_to_network_byte_order", {"mem": ["pdu"], "writes": True}),
 ]
+
+LISTED = set(f[1] for f in FUNCS)
+# records whose pointer members are kept (as identities); elsewhere pointer members are left out of the structure
+PTR_FIELD_RECORDS = {"struct key_entry", "struct spki_record"}
 
 LEAN_RESERVED = {"from", "type", "end", "at", "with", "do", "then", "else", "if", "let", "have", "show", "fun", "in",
                  "open", "namespace", "section", "variable", "instance", "class", "structure", "def", "theorem",
@@ -136,6 +143,10 @@ class Ty:
             return struct_lean_name(self.name)
         if self.kind == "void":
             return "Unit"
+        if self.kind == "bytes":
+            return "List (BitVec 8)"
+        if self.kind == "ptr":
+            return "Nat"
         bad("no Lean type for %r" % (self,))
 
 
@@ -481,6 +492,14 @@ def struct_info(tu, cname):
         elif ty.kind == "array" and ty.elem.kind in ("int", "bool") and 0 < ty.n <= 16:
             info["fields"][fname] = ("array", ty)
             info["order"].append(fname)
+        elif ty.kind == "array" and ty.elem.kind == "int" and ty.elem.bits == 8 and ty.n > 16:
+            # a byte string: handled as a whole (memcmp / memcpy over its full size), never indexed
+            info["fields"][fname] = ("bytes", ty)
+            info["order"].append(fname)
+        elif ty.kind == "ptr" and cname in PTR_FIELD_RECORDS:
+            # a pointer that is only copied and compared: its identity
+            info["fields"][fname] = ("ptr", ty)
+            info["order"].append(fname)
     STRUCT_ORDER.append(cname)
     return info
 
@@ -494,6 +513,10 @@ def struct_zero(cname):
             parts.append("%s := %s" % (lname(f), "false" if ty.kind == "bool" else "0#%d" % ty.bits))
         elif kind == "struct":
             parts.append("%s := %s" % (lname(f), struct_zero(ty.name)))
+        elif kind == "bytes":
+            parts.append("%s := List.replicate %d 0#8" % (lname(f), ty.n))
+        elif kind == "ptr":
+            parts.append("%s := C.NULL" % lname(f))
         else:
             for i in range(ty.n):
                 parts.append("%s_%d := %s" % (f, i, "false" if ty.elem.kind == "bool" else "0#%d" % ty.elem.bits))
@@ -513,6 +536,12 @@ def emit_structs():
                 for i in range(ty.n):
                     out.append("  %s_%d : %s" % (f, i, ty.elem.lean()))
                     n += 1
+            elif kind == "bytes":
+                out.append("  %s : List (BitVec 8)   -- `uint8_t %s[%d]`, used only as a whole" % (lname(f), f, ty.n))
+                n += 1
+            elif kind == "ptr":
+                out.append("  %s : Nat   -- pointer, only copied and compared" % lname(f))
+                n += 1
             else:
                 out.append("  %s : %s" % (lname(f), ty.lean()))
                 n += 1
@@ -583,11 +612,19 @@ class Fn:
         self.params = []          # (cname, Ty, mode)  mode in scalar/value/inout/mem
         self.vars = {}            # cname -> {"ty": Ty, "mode": ...}
         self.ret = None
+        self.prefix = ""          # Lean-name prefix of this function's variables (non-empty for an inlined callee)
+        self.stack = [self.name]  # functions being inlined (recursion guard)
+        self.root = self          # the function whose definition is being emitted (owner of the temp counter)
 
     # ---- helpers -------------------------------------------------------------------------
     def fresh(self, base="t"):
-        self.tmp += 1
-        return "%s%d_" % (base, self.tmp)
+        self.root.tmp += 1
+        return "%s%d_" % (base, self.root.tmp)
+
+    def ln(self, cname):
+        if cname in self.vars and "alias" in self.vars[cname]:
+            cname = self.vars[cname]["alias"]
+        return lname(self.prefix + cname) if self.prefix else lname(cname)
 
     def setup(self):
         n = self.node
@@ -602,6 +639,8 @@ class Fn:
             ty = parse_type(p["type"])
             name = p.get("name")
             if ty.kind == "ptr":
+                if name in self.opts.get("as", {}):
+                    ty = Ty("ptr", elem=Ty("struct", name=self.opts["as"][name]))
                 if name in self.memparams:
                     mode = "mem"
                 elif ty.elem.kind == "struct":
@@ -626,11 +665,11 @@ class Fn:
             ps.append("(mem : Nat → BitVec 8) (msize : Nat)")
         for name, ty, mode in self.params:
             if mode == "mem":
-                ps.append("(%s : Nat)" % lname(name))
+                ps.append("(%s : Nat)" % self.ln(name))
             elif mode in ("value", "inout"):
-                ps.append("(%s : %s)" % (lname(name), struct_lean_name(ty.elem.name)))
+                ps.append("(%s : %s)" % (self.ln(name), struct_lean_name(ty.elem.name)))
             else:
-                ps.append("(%s : %s)" % (lname(name), ty.lean()))
+                ps.append("(%s : %s)" % (self.ln(name), ty.lean()))
         return " ".join(ps)
 
     def inouts(self):
@@ -653,7 +692,7 @@ class Fn:
         if self.ret.kind != "void":
             parts.append(retv)
         for n, ty in self.inouts():
-            parts.append(lname(n))
+            parts.append(self.ln(n))
         if self.writes_mem:
             parts.append("mem")
         if not parts:
@@ -665,6 +704,9 @@ class Fn:
         if v.ty.kind == "bool":
             return v
         if v.ty.kind == "int":
+            m = re.match(r"^\(C\.b2i \d+ (\(.*\))\)$", v.text)
+            if m:
+                return V(m.group(1), Ty("bool"), v.guards)
             if v.const is not None:
                 return V("true" if v.const != 0 else "false", Ty("bool"), v.guards, const=int(v.const != 0))
             return V("(%s != %s)" % (v.text, lit(0, v.ty.bits)), Ty("bool"), v.guards)
@@ -752,10 +794,10 @@ class Fn:
                 info = self.vars[name]
                 if info["mode"] in ("value", "inout"):
                     # a pointer parameter in value mode used as a value: only as call argument / -> base
-                    return V(lname(name), Ty("ptr", elem=info["ty"].elem, name="valueptr:" + name))
+                    return V(self.ln(name), Ty("ptr", elem=info["ty"].elem, name="valueptr:" + info.get("alias", name)))
                 if info["mode"] == "local" and name not in env["defined"] and info["ty"].kind != "struct":
                     return V("__UNINIT__", info["ty"], ["false"])
-                return V(lname(name), info["ty"])
+                return V(self.ln(name), info["ty"])
             if name in self.tu.globals:
                 v, t = self.tu.globals[name]
                 ty = parse_type(t)
@@ -1013,7 +1055,7 @@ class Fn:
             ty = info["ty"]
             if info["mode"] in ("value", "inout"):
                 ty = info["ty"].elem
-            return {"root": name, "steps": [], "ty": ty, "const": info["mode"] == "value"}
+            return {"root": info.get("alias", name), "steps": [], "ty": ty, "const": info["mode"] == "value"}
         if k == "MemberExpr":
             base = n["inner"][0]
             if n.get("isArrow"):
@@ -1033,6 +1075,10 @@ class Fn:
             if fname not in info["fields"]:
                 bad("field '%s' of %s has no supported type" % (fname, p["ty"].name), n)
             kind, fty = info["fields"][fname]
+            if kind == "bytes":
+                fty = Ty("bytes", n=fty.n)
+            elif kind == "ptr":
+                fty = Ty("ptr", elem=fty.elem, name="field")
             return {"root": p["root"], "steps": p["steps"] + [lname(fname) if kind != "array" else fname], "ty": fty, "const": p["const"]}
         if k == "ArraySubscriptExpr":
             base, idx = n["inner"]
@@ -1051,7 +1097,7 @@ class Fn:
         bad("unsupported lvalue", n)
 
     def path_text(self, p):
-        return ".".join([lname(p["root"])] + p["steps"])
+        return ".".join([self.ln(p["root"])] + p["steps"])
 
     def path_key(self, p):
         return ".".join([p["root"]] + p["steps"])
@@ -1074,7 +1120,7 @@ class Fn:
 
     def update_text(self, p, value):
         """Lean text of the root variable after storing `value` at path p"""
-        root = lname(p["root"])
+        root = self.ln(p["root"])
         steps = p["steps"]
         if not steps:
             return value
@@ -1108,7 +1154,36 @@ class Fn:
             return V("(C.bswap%d %s)" % (w, v.text), ty, v.guards)
         if "_hoisted" in n:
             return n["_hoisted"]
+        if name == "memcmp":
+            a, b = self.bytes_arg(n["inner"][1], env), self.bytes_arg(n["inner"][2], env)
+            self.check_whole_size(n["inner"][3], a, b, n)
+            # only the truth value of the result is defined here: 0 iff the byte strings are equal
+            return V("(C.b2i 32 (%s != %s))" % (a.text, b.text), Ty("int", 32, True), a.guards + b.guards)
         bad("call of '%s' in a position from which it cannot be hoisted" % name, n)
+
+    def bytes_arg(self, a, env):
+        while a.get("kind") in ("ImplicitCastExpr", "ParenExpr", "CStyleCastExpr"):
+            a = a["inner"][-1]
+        p = self.lvalue_path(a, env)
+        if p["ty"].kind != "bytes":
+            bad("memcmp/memcpy argument is not a whole byte-array member", a)
+        v = V(self.path_text(p), p["ty"])
+        v.path = p
+        return v
+
+    def check_whole_size(self, sz, a, b, n):
+        while sz.get("kind") in ("ImplicitCastExpr", "ParenExpr"):
+            sz = sz["inner"][0]
+        val = None
+        if sz.get("kind") == "UnaryExprOrTypeTraitExpr" and sz.get("name") == "sizeof":
+            t = sz["argType"]["qualType"] if "argType" in sz else sz["inner"][0]["type"]["qualType"]
+            ty = parse_type_str(strip_quals(t))
+            if ty is not None and ty.kind == "array" and ty.elem.kind == "int" and ty.elem.bits == 8:
+                val = ty.n
+        else:
+            val = const_value(sz)
+        if val is None or val != a.ty.n or val != b.ty.n:
+            bad("memcmp/memcpy over something else than the whole of two equally long byte arrays", n)
 
     def find_calls(self, n, strict=True, out=None):
         """translated-function calls in evaluation order; rejects those under short-circuit operators"""
@@ -1130,16 +1205,24 @@ class Fn:
             self.find_calls(c, strict, out)
         if k == "CallExpr":
             name = self.callee_name(n)
-            if name in self.translated:
+            if name in self.translated or self.inlinable(name):
                 if not strict:
                     bad("call of '%s' under a short-circuit operator" % name, n)
                 out.append(n)
         return out
 
+    def inlinable(self, name):
+        """a function defined in this translation unit that is not translated on its own: its body is inlined at the call
+        (so that extracting a helper from a translated function changes nothing in the translation)"""
+        return (name not in self.translated and name in self.tu.funcs and name not in BSWAP and name not in IGNORED_CALLS
+                and name not in ("memset", "memcpy", "memcmp") and name not in LISTED)
+
     def emit_call(self, n, env, k):
         """hoist one translated call: returns Lean text `match f args with | none => none | some r => <k(env)>`;
         marks n["_hoisted"] with the temp that holds its value"""
         name = self.callee_name(n)
+        if name not in self.translated:
+            return self.emit_inline(n, env, k)
         callee = self.translated[name]
         args = n["inner"][1:]
         texts, gs, writebacks = [], [], []
@@ -1152,7 +1235,7 @@ class Fn:
                 v = self.expr(a, env)
                 if v.ty.kind == "ptr" and (v.ty.name or "").startswith("valueptr:"):
                     root = v.ty.name.split(":", 1)[1]
-                    texts.append(lname(root))
+                    texts.append(self.ln(root))
                     if pmode == "inout":
                         if self.vars[root]["mode"] != "inout":
                             bad("const pointee passed to a function that writes it", n)
@@ -1193,11 +1276,93 @@ class Fn:
         n["_hoisted"] = V(tmp, callee.ret)
         lines = []
         for p, t in zip(writebacks, wb_tmps):
-            lines.append("let %s := %s" % (lname(p["root"]), self.update_text(p, t)))
+            lines.append("let %s := %s" % (self.ln(p["root"]), self.update_text(p, t)))
         body = k(env)
         call = "%s %s" % (name, " ".join("(%s)" % t if " " in t else t for t in texts)) if texts else name
         txt = "match %s with\n| none => none\n| some %s =>\n%s" % (call, pat, indent("\n".join(lines + [body]), 2))
         return self.guarded(gs, "(" + txt + ")")
+
+    def emit_inline(self, n, env, k):
+        """inline the body of a local helper at its call"""
+        name = self.callee_name(n)
+        if name in self.stack or len(self.stack) > 6:
+            bad("recursive or too deeply nested call of '%s'" % name, n)
+        node = self.tu.funcs[name]
+        sub = Fn(self.tu, node, {}, self.translated)
+        sub.root = self.root
+        sub.stack = self.stack + [name]
+        sub.prefix = "%s%s" % (self.prefix, self.fresh("h"))
+        sub.uses_mem, sub.writes_mem = self.uses_mem, self.writes_mem
+        fty = node["type"]["qualType"]
+        sub.ret = parse_type(fty[:fty.index("(")].strip())
+        if sub.ret.kind == "struct":
+            struct_info(self.tu, sub.ret.name)
+        args = n["inner"][1:]
+        params = [p for p in node.get("inner", []) if p.get("kind") == "ParmVarDecl"]
+        if len(params) != len(args):
+            bad("call of '%s' with a different number of arguments" % name, n)
+        binds, gs, writebacks = [], [], []
+        for prm, a in zip(params, args):
+            pty = parse_type(prm["type"])
+            pname = prm.get("name")
+            v = self.expr(a, env)
+            gs += v.guards
+            if pty.kind == "ptr":
+                if v.ty.kind == "ptr" and (v.ty.name or "").startswith("valueptr:"):
+                    root = v.ty.name.split(":", 1)[1]
+                    isconst = bool(re.match(r"^\s*const\b", prm["type"]["qualType"])) or self.vars[root]["mode"] == "value"
+                    struct_info(self.tu, pty.elem.name)
+                    sub.vars[pname] = {"ty": pty, "mode": "value" if isconst else "inout"}
+                    binds.append("let %s : %s := %s" % (sub.ln(pname), struct_lean_name(pty.elem.name), self.ln(root)))
+                    if not isconst:
+                        writebacks.append(({"root": root, "steps": [], "ty": pty.elem, "const": False}, pname))
+                elif v.ty.kind == "ptr" and v.ty.name == "addrof":
+                    pth = v.path
+                    if pth["ty"].kind != "struct" or pty.elem.kind != "struct" or pth["ty"].name != pty.elem.name:
+                        bad("address-of argument of a different record type", n)
+                    isconst = bool(re.match(r"^\s*const\b", prm["type"]["qualType"])) or pth["const"]
+                    sub.vars[pname] = {"ty": pty, "mode": "value" if isconst else "inout"}
+                    binds.append("let %s : %s := %s" % (sub.ln(pname), struct_lean_name(pty.elem.name), self.path_text(pth)))
+                    if not isconst:
+                        writebacks.append((pth, pname))
+                elif self.uses_mem and v.ty.kind == "ptr":
+                    sub.vars[pname] = {"ty": pty, "mode": "mem"}
+                    binds.append("let %s : Nat := %s" % (sub.ln(pname), v.text))
+                else:
+                    bad("unsupported pointer argument for '%s' of '%s'" % (pname, name), n)
+            elif pty.kind == "struct":
+                struct_info(self.tu, pty.name)
+                sub.vars[pname] = {"ty": pty, "mode": "scalar"}
+                binds.append("let %s : %s := %s" % (sub.ln(pname), pty.lean(), v.text))
+            elif pty.kind in ("int", "bool"):
+                v = self.as_int(v, pty) if pty.kind == "int" else self.as_bool(v)
+                sub.vars[pname] = {"ty": pty, "mode": "scalar"}
+                binds.append("let %s : %s := %s" % (sub.ln(pname), pty.lean(), v.text))
+            else:
+                bad("parameter '%s' of '%s' has an unsupported type" % (pname, name), n)
+            sub.params.append((pname, pty, sub.vars[pname]["mode"]))
+        tmp = self.fresh("r")
+        n["_hoisted"] = V(tmp, sub.ret)
+        caller_env = env
+
+        def ret_k(env_sub, vtext):
+            lines = []
+            for pth, pname in writebacks:
+                lines.append("let %s := %s" % (self.ln(pth["root"]), self.update_text(pth, sub.ln(pname))))
+            if sub.ret.kind != "void":
+                if vtext is None:
+                    return "none"
+                lines.append("let %s : %s := %s" % (tmp, sub.ret.lean(), vtext))
+            return "\n".join(lines + [k(copy_env(caller_env))])
+        body = [c for c in node["inner"] if c.get("kind") == "CompoundStmt"][0]
+        env_sub = {"defined": set(pn for pn, _, _ in sub.params)}
+
+        def fall_off(env2):
+            if sub.ret.kind == "void":
+                return ret_k(env2, None)
+            return "none"
+        txt = sub.stmt(body, env_sub, {"next": fall_off, "ret": ret_k})
+        return self.guarded(gs, "\n".join(binds + [txt]))
 
     def guarded(self, gs, body):
         g = conj(gs)
@@ -1281,6 +1446,20 @@ class Fn:
                 if ty.kind == "struct":
                     struct_info(self.tu, ty.name)
                 elif ty.kind == "ptr":
+                    init0 = [c for c in d.get("inner", []) if "kind" in c and not c["kind"].endswith("Attr")]
+                    if init0 and ty.elem.kind == "struct":
+                        v0 = self.expr(init0[0], env)
+                        if v0.ty.kind == "ptr" and (v0.ty.name or "").startswith("valueptr:"):
+                            root = v0.ty.name.split(":", 1)[1]
+                            rinfo = self.vars[root]
+                            if rinfo["ty"].elem.kind != "struct" or rinfo["ty"].elem.name != ty.elem.name:
+                                bad("pointer local of a different record type than the parameter it aliases", d)
+                            isconst = bool(re.match(r"^\s*const\b", d["type"]["qualType"]))
+                            self.vars[name] = {"ty": rinfo["ty"], "mode": "value" if (isconst or rinfo["mode"] == "value") else rinfo["mode"],
+                                               "alias": rinfo.get("alias", root)}
+                            env2 = copy_env(env)
+                            env2["defined"].add(name)
+                            return go(j + 1, env2)
                     if not self.uses_mem:
                         bad("pointer local outside memory mode", d)
                 elif ty.kind not in ("int", "bool"):
@@ -1290,12 +1469,14 @@ class Fn:
                 if not init:
                     if ty.kind == "struct":
                         # members are assigned one by one; unassigned ones keep this placeholder and reading them is `none`
-                        return "let %s : %s := %s.zero\n%s" % (lname(name), ty.lean(), ty.lean(), go(j + 1, env))
+                        return "let %s : %s := %s.zero\n%s" % (self.ln(name), ty.lean(), ty.lean(), go(j + 1, env))
                     return go(j + 1, env)
                 return self.assign_var(name, ty, init[0], env, lambda env2: go(j + 1, env2), decl=True)
             return go(0, env)
         if k == "ReturnStmt":
             if not s.get("inner"):
+                if "ret" in ctx:
+                    return ctx["ret"](env, None)
                 return "some %s" % self.result_value(None)
             e = s["inner"][0]
 
@@ -1305,6 +1486,8 @@ class Fn:
                     v = self.as_int(v, self.ret)
                 elif self.ret.kind == "bool":
                     v = self.as_bool(v)
+                if "ret" in ctx:
+                    return self.guarded(v.guards, ctx["ret"](env2, v.text))
                 return self.guarded(v.guards, "some %s" % self.result_value(v.text))
             return self.with_calls([e], env, fin)
         if k == "BreakStmt":
@@ -1335,7 +1518,18 @@ class Fn:
                 return nxt(env)
             if name == "memset":
                 return self.memset(s, env, nxt)
-            if name in self.translated:
+            if name == "memcpy":
+                dst, src = self.bytes_arg(s["inner"][1], env), self.bytes_arg(s["inner"][2], env)
+                self.check_whole_size(s["inner"][3], dst, src, s)
+                if dst.path["const"]:
+                    bad("memcpy into a const object", s)
+                root = dst.path["root"]
+                info = self.vars[root]
+                rty = info["ty"].elem.lean() if info["mode"] in ("value", "inout") else info["ty"].lean()
+                env3 = copy_env(env)
+                env3["defined"].add(self.path_key(dst.path))
+                return "let %s : %s := %s\n%s" % (self.ln(root), rty, self.update_text(dst.path, src.text), nxt(env3))
+            if name in self.translated or self.inlinable(name):
                 return self.with_calls([s], env, nxt)
             bad("call of untranslated function '%s'" % name, s)
         if k in ("ImplicitCastExpr", "CStyleCastExpr", "ParenExpr"):
@@ -1367,7 +1561,7 @@ class Fn:
             bad("memset size is not sizeof the struct", s)
         env = copy_env(env)
         env["defined"].add(p["root"])
-        return "let %s : %s := %s.zero\n%s" % (lname(p["root"]), p["ty"].lean(), p["ty"].lean(), nxt(env))
+        return "let %s : %s := %s.zero\n%s" % (self.ln(p["root"]), p["ty"].lean(), p["ty"].lean(), nxt(env))
 
     def assign_var(self, name, ty, rhs, env, nxt, decl=False):
         def fin(env2):
@@ -1384,7 +1578,7 @@ class Fn:
             env3 = copy_env(env2)
             env3["defined"].add(name)
             tytxt = "Nat" if ty.kind == "ptr" else ty.lean()
-            return self.guarded(v.guards, "let %s : %s := %s\n%s" % (lname(name), tytxt, v.text, nxt(env3)))
+            return self.guarded(v.guards, "let %s : %s := %s\n%s" % (self.ln(name), tytxt, v.text, nxt(env3)))
         return self.with_calls([rhs], env, fin)
 
     def assign(self, s, env, nxt):
@@ -1420,7 +1614,7 @@ class Fn:
             root = p["root"]
             info = self.vars[root]
             rty = info["ty"].elem.lean() if info["mode"] in ("value", "inout") else ("Nat" if info["ty"].kind == "ptr" else info["ty"].lean())
-            return self.guarded(v.guards, "let %s : %s := %s\n%s" % (lname(root), rty, self.update_text(p, v.text), nxt(env3)))
+            return self.guarded(v.guards, "let %s : %s := %s\n%s" % (self.ln(root), rty, self.update_text(p, v.text), nxt(env3)))
         return self.with_calls([rhs], env, fin)
 
     def store(self, s, env, nxt):
@@ -1497,7 +1691,7 @@ class Fn:
         root = p["root"]
         info = self.vars[root]
         rty = info["ty"].elem.lean() if info["mode"] in ("value", "inout") else info["ty"].lean()
-        return self.guarded(gs, "let %s : %s := %s\n%s" % (lname(root), rty, self.update_text(p, "(%s %s %s)" % (cur, op, lit(1, ty.bits))), nxt(env)))
+        return self.guarded(gs, "let %s : %s := %s\n%s" % (self.ln(root), rty, self.update_text(p, "(%s %s %s)" % (cur, op, lit(1, ty.bits))), nxt(env)))
 
     def switch(self, s, env, ctx):
         cond, body = s["inner"][0], s["inner"][-1]
